@@ -4,6 +4,8 @@ import XmppModel.Model.IbbReader
 import XmppModel.Model.IbbReaders
 import XmppModel.Model.IbbSend
 import XmppModel.Model.IbbClose
+import XmppModel.Model.IbbBody
+import XmppModel.Model.IbbTable
 /-! Driver module for C15.
 
     C15 recv <maxbuf> <ops>    ops `,`-joined:  d:<known>:<seq>:<payloadhex>  data packet
@@ -17,13 +19,33 @@ import XmppModel.Model.IbbClose
 namespace XmppModel.Driver.C15
 open XmppModel XmppModel.Ibb
 
+/-- one piece of a serialised body: `T<hex>` text, `C<hex>` CDATA section, `E<hex>` character
+references -/
+def parseSeg (t : String) : Option Seg :=
+  match t.toList with
+  | 'T' :: r => (hexDecode (String.ofList r)).map Seg.text
+  | 'C' :: r => (hexDecode (String.ofList r)).map Seg.cdata
+  | 'E' :: r => (hexDecode (String.ofList r)).map Seg.charRefs
+  | _ => none
+
+/-- the payload field of a `d:` token: plain hex (one piece of text), or pieces joined by `+` -/
+def parseBody (f : String) : Option (List Seg) :=
+  match f.toList with
+  | c :: _ =>
+    if c = 'T' ∨ c = 'C' ∨ c = 'E' then mapM? parseSeg (splitList f '+')
+    else (hexDecode f).map fun b => [Seg.text b]
+  | [] => none
+
+def parseSeqField (seq : String) : Option Bytes :=
+  if seq.startsWith "x" then hexDecode (seq.drop 1).toString else some seq.toUTF8.toList
+
 def applyOp (s : RState) (op : String) : Option (RState × String) :=
   match op.splitOn ":" with
   | ["d", k, seq, pl] => do
     -- the seq field is the attribute text: plain when it is a canonical numeral, else x<hex>
-    let k ← parseBool k; let b ← hexDecode pl
-    let a ← if seq.startsWith "x" then hexDecode (seq.drop 1).toString else some seq.toUTF8.toList
-    let r := recvWire std s ⟨k, a, b⟩
+    let k ← parseBool k; let b ← parseBody pl
+    let a ← parseSeqField seq
+    let r := recvBody std s ⟨k, a, b⟩
     pure (r.1, showReply r.2)
   | ["c"] => some (close s, "c")
   | ["h"] => some (closeBegin (IbbClose.receivesWhileWaiting IbbClose.closeProgram) s, "h")
@@ -126,8 +148,47 @@ def readersEvent (s : IbbReaders.St) (t : String) : Option IbbReaders.St :=
   | 'P' :: r => do let n ← (String.ofList r).toNat?; IbbReaders.step true s (.packet n)
   | _ => none
 
+/-- `C15 multi <ops>`: several streams on one Handler.  ops `,`-joined: o<sid> / O<sid> a stream with that
+sid is opened by the peer / by us and accepted (connections are numbered 0,1,… in this order), d<sid>:<seq>:<payload>
+the peer's data packet, c<sid> the peer's close, C<h> local Close of connection h, r<h>:<n> Read on
+connection h.  answer per op: o / reply / c|inf / c / D<hex>|EOF|BLOCK -/
+def parseHOp (t : String) : Option HOp :=
+  match t.splitOn ":" with
+  | [hd] =>
+    match hd.toList with
+    | 'o' :: r => (String.ofList r).toNat?.map HOp.open
+    | 'O' :: r => (String.ofList r).toNat?.map HOp.open
+    | 'c' :: r => (String.ofList r).toNat?.map HOp.closeSid
+    | 'C' :: r => (String.ofList r).toNat?.map HOp.closeLocal
+    | _ => none
+  | [hd, n] =>
+    match hd.toList with
+    | 'r' :: r => do let h ← (String.ofList r).toNat?; let n ← n.toNat?; pure (HOp.read h n)
+    | _ => none
+  | [hd, seq, pl] =>
+    match hd.toList with
+    | 'd' :: r => do
+      let sid ← (String.ofList r).toNat?; let a ← parseSeqField seq; let b ← parseBody pl
+      pure (HOp.data sid a (bodyText b))
+    | _ => none
+  | _ => none
+
+def showHObs : HOp → HObs → String
+  | _, .opened _ => "o"
+  | .closeSid _, .reply .ack => "c"
+  | _, .reply r => showReply r
+  | _, .closed => "c"
+  | .read _ n, .read (.data b) => "D" ++ hexEncode (b.take n)
+  | _, .read (.data b) => "D" ++ hexEncode b
+  | _, .read .eof => "EOF"
+  | _, .read .blocks => "BLOCK"
+
 def handle (args : List String) : Option String :=
   match args with
+  | ["multi", ops] => do
+    let os ← mapM? parseHOp (splitList ops)
+    let r := hrun std {} os
+    pure (joinList (List.zipWith showHObs os r.2))
   | ["recv", maxbuf, ops] => do
     let m ← maxbuf.toNat?
     let r ← runOps ⟨true, 0, [], m⟩ (splitList ops)
